@@ -56,6 +56,7 @@ CheckLine(k) ==
         /\ Clause("C03_smRotateKeepsMembers", C03_smRotateKeepsMembers(pre, op, res, post), "", k)
         /\ Clause("C05_newcomerFlag", C05_newcomerFlag(pre, op, res, post, newSeats), "", k)
         /\ Clause("C05_continuity", C05_continuity(pre, op, res, post), "", k)
+        /\ Clause("C05_waitsUntilRotation", C05_waitsUntilRotation(pre, op, res, post), "", k)
         /\ Clause("C05_rejoinTerms", C05_rejoinTerms(pre, op, res, post), "", k)
         /\ (R(res, post) \in Outcomes(pre, t) \/ PrintT(<<"DRIFT", k, op, res>>))
 
